@@ -559,13 +559,16 @@ def _owner_of(cls, name):
 
 
 def check_ensures(I, code_outs, efn, base_args, oname, rlimit, on_exc=False, after=(), allowed_exc=()):
-    """Boolean postcondition on every returning path of the code; a feasible raising path that the contract does
-    not mention is reported as undecided (never silently skipped, never a violation by itself)."""
+    """Boolean postcondition on every returning path of the code; a feasible path on which the code itself raises an
+    exception of a known class that the contract does not mention is reported as undecided (never silently skipped,
+    never a violation by itself).  Errors propagated from callee contracts are outside the postcondition."""
     obs = []
     for i, co in enumerate(code_outs):
         if co.kind != "ret" and not on_exc:
             k = co.value.kind
-            if k is not None and any(issubclass(k, a) for a in allowed_exc):
+            if k is None:
+                continue        # an error propagated from a callee / the induction hypothesis (unknown class): the postcondition speaks of returns
+            if any(issubclass(k, a) for a in allowed_exc):
                 continue
             r, _ = smt.check(I.ctx, I.pcs + co.pcs, rlimit=rlimit)
             if r != "unsat":
